@@ -183,8 +183,8 @@ def boundary_rule(ctx, repo, dis):
             name = ''.join('%02X' % x for x in seq)
             bad = None
             for address in range(65530, 65536):
-                if address + len(seq) > 65536:
-                    continue      # the opcode itself is cut off: both fall back to data by construction of their prefix tests
+                # (when the opcode bytes themselves are cut off by the top of memory, only those below 65536 exist: the disassembler then
+                # writes the remaining bytes as data, and so must opcodes.py)
                 want = length if address + length <= 65536 else 65536 - address
                 try:
                     got = oc.size(fam, b, address)
@@ -192,12 +192,15 @@ def boundary_rule(ctx, repo, dis):
                     ctx.limit(name, 'opcodes.py decoder not foldable: %s' % e2)
                     bad = 'limit'
                     break
+                except (IndexError, KeyError) as e2:
+                    bad = (address, '%s: %s' % (type(e2).__name__, e2), want)
+                    break
                 if got != want:
                     bad = (address, got, want)
                     break
             if bad == 'limit':
                 continue
             if bad:
-                ctx.violation(name, 'skoolkit/opcodes.py', '%s at address %d: opcodes.py decodes %s byte(s), the disassembler %d (instruction length %d)' % (name, bad[0], bad[1], bad[2], length))
+                ctx.violation(name, 'skoolkit/opcodes.py', '%s at address %d: opcodes.py decodes %s byte(s) [or fails], the disassembler %d (instruction length %d)' % (name, bad[0], bad[1], bad[2], length))
             else:
                 ctx.ok({'seq': name, 'addresses': '65530..65535'})
